@@ -1,5 +1,110 @@
-"""C11 — bounded stand-in for now (runtime contracts); deductive obligations are added in contracts/c11_proof when available."""
-BOUNDED_ONLY = True
+"""C11 — StandardFlexibleScaler standardises w.r.t. the weighted training distribution.
+
+Real functions: StandardFlexibleScaler.fit / transform / inverse_transform (skmatter/preprocessing/_data.py), all with_mean/with_std/column_wise
+combinations, with and without sample weights.  Weighted averages are a normalised non-negative linear functional WAVG(w, .) of each column
+(external contract of np.average), so every statement holds for every weight vector."""
+from pyvc.api import *
+from pyvc import veclayer as VL, skstubs
+from pyvc.veclayer import Vec, comp, vsubs, vscale, vsq, WAVG
+from pyvc.engine import ExtNS, ExtClass
+
+SC = 'skmatter.preprocessing._data.StandardFlexibleScaler'
+i_, j_ = Int('i'), Int('j')
+
+def extend_ext(ext):
+    VL.install(ext); skstubs.install(ext); VL.install_stats(ext)
+    ext['names']['sklearn.utils.validation._check_sample_weight'] = lambda I, w, X, **kw: w
+    ext['names']['sklearn.preprocessing._data.KernelCenterer'] = ExtClass('KernelCenterer')
+    ext['names']['sklearn.preprocessing.KernelCenterer'] = ExtClass('KernelCenterer')
+    ext['names']['sklearn.utils.validation._check_sample_weight'] = lambda I, w, X, **kw: w
+    def np_sum(I, a, axis=None, **kw):
+        r = I.fresh('sum', RealS)
+        I.cur.setdefault('sums', []).append((a, r))
+        return r
+    ext['modules']['np'].sum = np_sum
+    ext['arr_attrs'] = dict(ext['arr_attrs']); ext['arr_attrs']['sum'] = lambda I, a: (lambda I2, *x, **k: np_sum(I2, a, *x, **k))
+
+def u_scaler(wm, ws, cw, weighted):
+    def body(I):
+        n, m = I.fresh('n', IntS), I.fresh('m', IntS); I.assume(And(n >= 2, m >= 1))
+        I.use_axioms('stats', VL.axioms() + VL.stats_axioms())
+        I.cur = {}
+        X = I.fresh_arr('X', (n, m), layout=1); col = I.A(X).vecs[1]
+        w = I.fresh_arr('w', (n,)) if weighted else None
+        rtol, atol = I.fresh('rtol', RealS), I.fresh('atol', RealS); I.assume(And(rtol >= 0, atol > 0))
+        cls = I.repo.get(SC)
+        me = I.instantiate(cls, [], dict(with_mean=wm, with_std=ws, column_wise=cw, rtol=rtol, atol=atol))
+        r = I.call_func(I.find_method(cls, 'fit'), [me, X], dict(sample_weight=w))
+        I.ob('post[C09]:fit-returns-self', BoolVal(isinstance(r, ObjRef) and r.id == me.id), kind='post')
+        o = I.O(me)
+        tok = VL.weight_token(I, w)
+        # every weighted average taken by fit uses the given weights (or none)
+        sample_avgs = [(aa, ww, ax) for (aa, ww, ax) in I.cur.get('avg_calls', []) if I.A(aa).ndim == 2]      # averages over the sample axis
+        I.ob('post[C11]:all-averages-use-the-sample-weights', BoolVal(all(z3.eq(VL.weight_token(I, ww), tok) and ax == 0 for (aa, ww, ax) in sample_avgs)), kind='post')
+        mu = lambda j: WAVG(tok, col(j))
+        var = lambda j: WAVG(tok, vsq(vsubs(col(j), mu(j))))
+        mean_ = I.A(o.attrs['mean_'])
+        I.ob('post[C11]:mean-is-the-weighted-column-mean-or-zero', And(tz(mean_.shape[0]) == m, ForAll([j_], Implies(And(0 <= j_, j_ < m), mean_.elem(j_) == (mu(j_) if wm else RealVal(0))))), kind='post')
+        sc = o.attrs['scale_']
+        if not ws:
+            I.ob('post[C11]:scaling-off-means-scale-one', BoolVal(not isinstance(sc, ArrRef) and conc(sc) == 1.0), kind='post')
+            scale = lambda j: RealVal(1)
+        elif cw:
+            S = I.A(sc)
+            I.ob('post[C11]:scale-is-the-square-root-of-the-weighted-column-variance', And(tz(S.shape[0]) == m, ForAll([j_], Implies(And(0 <= j_, j_ < m), And(S.elem(j_) == npstubs.SQRT(var(j_)), S.elem(j_) > 0)))), kind='post')
+            I.ob('reject[C11]:accepted-data-has-every-column-variance-at-or-above-the-tolerance', ForAll([j_], Implies(And(0 <= j_, j_ < m), var(j_) >= atol + If(mu(j_) >= 0, mu(j_), -mu(j_)) * rtol)), kind='post')
+            scale = lambda j: S.elem(j)
+        else:
+            sums = I.cur.get('sums', [])
+            summed = [a for a, r_ in sums if z3.eq(r_ * r_ if False else r_, r_)]
+            va, vs = None, None
+            for a, r_ in sums:
+                A = I.A(a)
+                if A.ndim == 1: va, vs = A, r_
+            I.ob('post[C11]:scale-is-the-square-root-of-the-summed-column-variances', BoolVal(va is not None) if va is None else
+                 And(tz(sc) == npstubs.SQRT(vs), tz(sc) > 0, tz(va.shape[0]) == m, ForAll([j_], Implies(And(0 <= j_, j_ < m), va.elem(j_) == var(j_)))), kind='post')
+            scale = lambda j: tz(sc)
+            I.cur['S'] = vs
+        # transformed training data
+        Tt = I.A(I.call_func(I.find_method(cls, 'transform'), [me, X], {}))
+        tcol = Tt.vecs[1] if Tt.vecs is not None else None
+        I.ob('post[C11]:transform-keeps-the-column-structure', BoolVal(tcol is not None), kind='post')
+        if tcol is not None:
+            if wm:
+                I.ob('post[C11]:weighted-column-means-of-the-transformed-training-data-vanish', ForAll([j_], Implies(And(0 <= j_, j_ < m), WAVG(tok, tcol(j_)) == 0)), kind='post')
+            if ws and wm:
+                tvar = lambda j: WAVG(tok, vsq(vsubs(tcol(j), WAVG(tok, tcol(j)))))
+                if cw:
+                    I.ob('post[C11]:weighted-variance-of-each-transformed-column-is-one', ForAll([j_], Implies(And(0 <= j_, j_ < m), tvar(j_) == 1)), kind='post')
+                else:
+                    I.ob('post[C11]:weighted-variance-of-each-transformed-column-is-its-share-of-the-summed-variance', ForAll([j_], Implies(And(0 <= j_, j_ < m), tvar(j_) * I.cur['S'] == var(j_))), kind='post')
+        # new data: formula and round trip
+        nn = I.fresh('n_new', IntS); I.assume(nn >= 1)
+        Xn = I.fresh_arr('Xnew', (nn, m), layout=1)
+        Tn = I.A(I.call_func(I.find_method(cls, 'transform'), [me, Xn], {}))
+        I.ob('post[C11]:transform-is-(X-mean)/scale', And(tz(Tn.shape[0]) == nn, tz(Tn.shape[1]) == m,
+             ForAll([i_, j_], Implies(And(0 <= i_, i_ < nn, 0 <= j_, j_ < m), Tn.elem(i_, j_) == (I.A(Xn).elem(i_, j_) - mean_.elem(j_)) / scale(j_)))), kind='post')
+        Tn_ref = I.new_arr(Tn)
+        Xb = I.A(I.call_func(I.find_method(cls, 'inverse_transform'), [me, Tn_ref], {}))
+        I.ob('post[C11]:inverse-transform-undoes-transform', ForAll([i_, j_], Implies(And(0 <= i_, i_ < nn, 0 <= j_, j_ < m), Xb.elem(i_, j_) == I.A(Xn).elem(i_, j_))), kind='post')
+    name = f"StandardFlexibleScaler[mean={wm},std={ws},column_wise={cw},{'weighted' if weighted else 'unweighted'}]"
+    return Unit(name, body, functions=[SC + '.fit', SC + '.transform', SC + '.inverse_transform'])
+
+def lemmas():
+    """consequences stated over the contract (uninterpreted normalised functional E): shift and scale invariance of the standardised data"""
+    v = z3.Const('v', Vec); a, c = z3.Reals('a c'); w = Int('w')
+    ax = VL.axioms() + VL.stats_axioms()
+    mu = WAVG(w, v); var = WAVG(w, vsq(vsubs(v, mu)))
+    sh = vsubs(v, -a)                                     # column shifted by +a
+    mu2 = WAVG(w, sh); 
+    items = [('shifted-column-has-the-shifted-mean-and-the-same-variance', ax, And(mu2 == mu + a, WAVG(w, vsq(vsubs(sh, mu2))) == var)),
+             ('centred-shifted-column-equals-the-centred-column', ax, vsubs(sh, mu2) == vsubs(v, mu)),
+             ('rescaled-column-has-the-rescaled-mean-and-variance-times-c-squared', ax, And(WAVG(w, vscale(v, c)) == c * mu,
+                                                                                              WAVG(w, vsq(vsubs(vscale(v, c), c * mu))) == c * c * var))]
+    return Lemma('invariance[C11]', items)
+
+UNITS = [(lambda a, b, c, d: (lambda: u_scaler(a, b, c, d)))(a, b, c, d) for a in (True, False) for b in (True, False) for c in (True, False) for d in (True, False)] + [lemmas]
 RT = True
-UNITS = []
-TRUSTED = ["reference: explicit weighted moments / explicit feature-space computation with numpy"]
+TRUSTED = ["external contract of np.average: for every weight vector (or none) a normalised non-negative linear functional of each column, unchanged by positive rescaling of the weights: WAVG(w, v - c) = WAVG(w, v) - c, WAVG(w, c v) = c WAVG(w, v), WAVG(w, v^2) >= 0",
+           "finite-sum step for the non-column-wise mode: sum_j var_j / S = 1 when S = sum_j var_j (the per-column identity tvar_j * S = var_j is proved; the summation is arithmetic)",
+           "integer weights = repeated rows and equality with sklearn StandardScaler: bounded (runtime side)"]
